@@ -632,6 +632,7 @@ func VerifC12EdgeShapes() {
 // embeds an unexported struct by pointer (its promoted fields are part of the value): the serialiser refuses them, or
 // returns a value of the identical dynamic type with the same content - never a different value
 type c12UnregTags []string
+type c12RegTags []string
 type c12UnregAttrs map[string]int
 type c12UnregArr [2]int
 type c12helper struct{ History []string }
@@ -643,10 +644,13 @@ type c12EmbP struct {
 func VerifC12UnregisteredShapes() {
 	c12Reg()
 	_ = GenericRegister[c12EmbP]("c12_embp")
-	kind := vchoose("shape", 4)
+	_ = GenericRegister[c12RegTags]("c12_reg_tags")
+	kind := vchoose("shape", 5)
 	where := vchoose("where", 3)
 	var leaf any
 	switch kind {
+	case 4: // the registered counterpart: it has to round-trip (which also keeps this family from being vacuous)
+		leaf = c12RegTags{"a", "b"}
 	case 0:
 		leaf = c12UnregTags{"a", "b"}
 	case 1:
@@ -666,6 +670,9 @@ func VerifC12UnregisteredShapes() {
 		v = c12Struct{I: leaf}
 	}
 	r, err := c12Round(v)
+	if kind == 4 {
+		vassert(err == nil, "a registered named slice type in an interface-typed position is serialised")
+	}
 	if err != nil {
 		return // refused loudly
 	}
@@ -692,6 +699,9 @@ func VerifC12UnregisteredShapes() {
 	case 2:
 		g, ok := got.(c12UnregArr)
 		vassert(ok && g[0] == 1 && g[1] == 2, "a named array that was accepted comes back as the same named type with the same items")
+	case 4:
+		g, ok := got.(c12RegTags)
+		vassert(ok && len(g) == 2 && g[0] == "a" && g[1] == "b", "a registered named slice comes back as the same named type with the same items")
 	case 3:
 		g, ok := got.(c12EmbP)
 		vassert(ok && g.N == 3 && g.c12helper != nil && len(g.History) == 1 && g.History[0] == "h", "a struct embedding an unexported struct by pointer that was accepted comes back with its promoted fields")
